@@ -94,6 +94,17 @@ JUSTIFIED = {
 }
 
 
+JUSTIFIED_WRITERS = {
+    "lua": {"luaexec:initialize_lua"},
+    "lua_invoke": {"luaexec:initialize_lua", "luaexec:call_lua_sandbox"},
+    "lua_reset_env": {"luaexec:initialize_lua", "luaexec:call_lua_sandbox"},
+    "lua_clear_loaddata_cache": {"luaexec:initialize_lua"},
+    "begline_enabled": {"core:BegLineDisableManager.__enter__", "core:BegLineDisableManager.__exit__"},
+    "begline_disable_counter": {"core:BegLineDisableManager.__enter__", "core:BegLineDisableManager.__exit__"},
+    "wikidata_session": {"wikidata:init_wikidata_session"},
+}
+
+
 def scan_field_lifecycle(rep):
     """every context field that is written after construction is re-established by start_page (per page) or by
     parse_encoded (per parse), or is on the justified list above"""
@@ -128,7 +139,7 @@ def scan_field_lifecycle(rep):
             classes["per-page"] += 1
         elif "parser:parse_encoded" in ws:
             classes["per-parse"] += 1
-        elif f in JUSTIFIED:
+        elif f in JUSTIFIED and later <= JUSTIFIED_WRITERS.get(f, set()):
             classes["justified"] += 1
         else:
             bad.append(f"{f}: written by {sorted(later)} but re-established neither by start_page nor by parse_encoded")
